@@ -71,7 +71,8 @@ func (l *genericFileSessionLoader) Load() (*Session, error) {
 }
 
 func (l *genericFileSessionLoader) Store(s *Session) error {
-	dir, _ := filepath.Split(l.path)
+	// filepath.Dir, unlike filepath.Split, gives "." for a bare file name
+	dir := filepath.Dir(l.path)
 	if !dry.FileExists(dir) {
 		return fmt.Errorf("%v: directory not found", dir)
 	}
